@@ -270,6 +270,7 @@ def install_layer2():
     for c in LAYER1:
         REGISTRY[c.qualname] = c
     REGISTRY["ebpfcat.bpf:addrof"] = Addrof()
+    REGISTRY["ebpfcat.arraymap:possible_cpus"] = PossibleCpus()
 
 
 class ProgModel:
@@ -414,13 +415,79 @@ hashmap_init = Contract(
     options={"inline": {"ebpfcat.hashmap:HashGlobalVarDesc.__get__", "ebpfcat.hashmap:HashGlobalVar.__init__"}})
 
 
+# ---- per-CPU maps: how many values the kernel copies
+import os  # noqa: E402
+
+import ebpfcat.arraymap as AM  # noqa: E402
+
+
+class PossibleCpus(Contract_):
+    """assumed contract of arraymap.possible_cpus (sysfs): the file
+    /sys/devices/system/cpu/possible lists every possible CPU, so the number
+    derived from its highest id is at least the number of possible CPUs"""
+    inline = False
+    loops = {}
+
+    def apply(self, ex, args, kwargs, frame, node):
+        v = fresh(ex, T.Range(1, None), "possible_from_sysfs")
+        ex.assume(POSSIBLE_T >= 1)
+        ex.assume(v.t >= POSSIBLE_T)
+        return v
+
+
+@lib.model(os.cpu_count)
+def _m_cpu_count(ex, args, kw):
+    """online CPUs: at least one, no relation to the possible CPUs"""
+    return fresh(ex, T.Range(1, None), "online_cpus")
+
+
+@lib.model(os.sched_getaffinity)
+def _m_affinity(ex, args, kw):
+    """CPUs this process may run on: a non-empty set, unrelated to possible"""
+    n = fresh(ex, T.Range(1, None), "affinity_cpus")
+    return AffinitySet(n)
+
+
+class AffinitySet:
+    def __init__(self, n):
+        self.n = n
+
+
+@lib.model(len)
+def _m_len_affinity(ex, args, kw):
+    if isinstance(args[0], AffinitySet):
+        return args[0].n
+    return lib.m_len(ex, args, kw)
+
+
+class ProgStub:
+    """the program object the reader is attached to"""
+
+
+percpu_create = Contract(
+    PerCPUArrayMap.create_map,
+    params=dict(self=T.Obj(PerCPUArrayMap, size=T.Range(8, None), name=T.Const("percpu")),
+                ebpf=T.Obj(ProgStub), fd=T.Const(None)),
+    requires={"layout_from_collect": "self.size % 8 == 0"},
+    ensures={
+        "one_value_per_possible_cpu": "self.cpu_no >= POSSIBLE()",
+        "reader_refers_to_the_map_created":
+            "KS(ebpf.percpu.fd) == 4 and VS(ebpf.percpu.fd) == self.size and PC(ebpf.percpu.fd) == 1 "
+            "and ebpf.percpu.map is self",
+    },
+    modifies=None,
+    options={"inline": {"ebpfcat.arraymap:PerCPUReader.__init__"}},
+    canaries={"a_single_value": "self.cpu_no == 1"})
+
+
 percpu_read = Contract(
     PerCPUReader.read,
     params=dict(self=T.Obj(PerCPUReader, fd=T.Range(0, 1 << 20), data=T.Const(None),
                            map=T.Obj(PerCPUArrayMap, size=T.Range(8, None), cpu_no=T.Range(1, None)))),
     requires={"map_created_by_create_map":
               "KS(self.fd) == 4 and VS(self.fd) == self.map.size and PC(self.fd) == 1",
-              "layout_from_collect": "self.map.size % 8 == 0"},
+              "layout_from_collect": "self.map.size % 8 == 0",
+              "one_value_per_possible_cpu": "self.map.cpu_no >= POSSIBLE()"},
     ensures={}, raises=ANY_EXC, modifies=None)
 
 
